@@ -60,6 +60,10 @@ type Mod struct {
 	// configuration; "includes" = all real files live under included sub-directories and <dir>/zz_outside/broken.proto
 	// lies outside them (v2 only). A decoy that is not kept out breaks the build or shows up in a listing.
 	Decoy string `json:"decoy,omitempty"`
+	// Includes (v2 only): the module entry is `path: Dir` restricted to these sub-directories; several entries may
+	// share one Dir. BucketID is the id buf documents for an unnamed module entry (see refBucketIDs).
+	Includes []string `json:"includes,omitempty"`
+	BucketID string   `json:"bucket_id,omitempty"`
 }
 
 const brokenProto = "syntax = \"proto3\";\npackage decoy.v1;\nmessage {\n"
@@ -111,7 +115,7 @@ func decoyYAML(m *Mod, v2 bool) string {
 func genDecoys(t *rapid.T, c *Case) {
 	for i := range c.Mods {
 		m := &c.Mods[i]
-		if m.Remote && !m.LocalToo {
+		if (m.Remote && !m.LocalToo) || len(m.Includes) > 0 {
 			continue
 		}
 		switch rapid.IntRange(0, 3).Draw(t, "decoy") {
@@ -152,7 +156,116 @@ func opaque(m *Mod) string {
 	if m.Name != "" {
 		return m.Name
 	}
+	if m.BucketID != "" {
+		return m.BucketID
+	}
 	return m.Dir
+}
+
+// refBucketIDs is the documented id scheme of v2 module entries: the first entry of a path is "<path>", the k-th
+// is "<path>-k"; if that produces a duplicate (a directory literally named "<path>-2"), every entry gets its
+// index, the first one included.
+func refBucketIDs(dirs []string) []string {
+	ids := func(firstHasSuffix bool) []string {
+		count := map[string]int{}
+		var out []string
+		for _, d := range dirs {
+			count[d]++
+			if count[d] == 1 && !firstHasSuffix {
+				out = append(out, d)
+			} else {
+				out = append(out, fmt.Sprintf("%s-%d", d, count[d]))
+			}
+		}
+		return out
+	}
+	out := ids(false)
+	seen := map[string]bool{}
+	for _, id := range out {
+		if seen[id] {
+			return ids(true)
+		}
+		seen[id] = true
+	}
+	return out
+}
+
+// splitModule turns one unnamed local module whose files live in two or more sub-directories into two module
+// entries of the same path with disjoint includes, and sometimes renames another module's directory to
+// "<path>-2" (the id the second entry would get).
+func splitModule(t *rapid.T, c *Case) {
+	var cands []int
+	for i := range c.Mods {
+		m := &c.Mods[i]
+		if tops, ok := topDirs(m); ok && len(tops) >= 2 && m.Name == "" && !m.Remote && !m.LocalToo {
+			cands = append(cands, i)
+		}
+	}
+	if len(cands) == 0 || !rapid.Bool().Draw(t, "split") {
+		return
+	}
+	i := cands[rapid.IntRange(0, len(cands)-1).Draw(t, "split-module")]
+	tops, _ := topDirs(&c.Mods[i])
+	cut := rapid.IntRange(1, len(tops)-1).Draw(t, "split-at")
+	first, second := tops[:cut], tops[cut:]
+	a := Mod{Dir: c.Mods[i].Dir, Files: map[string]string{}, Includes: first}
+	b := Mod{Dir: c.Mods[i].Dir, Files: map[string]string{}, Includes: second}
+	for p, txt := range c.Mods[i].Files {
+		top := p[:strings.Index(p, "/")]
+		inFirst := false
+		for _, d := range first {
+			inFirst = inFirst || d == top
+		}
+		if inFirst {
+			a.Files[p] = txt
+		} else {
+			b.Files[p] = txt
+		}
+	}
+	mods := append([]Mod{}, c.Mods[:i]...)
+	mods = append(mods, a, b)
+	mods = append(mods, c.Mods[i+1:]...)
+	c.Mods = mods
+	if len(c.Mods) > 2 && rapid.IntRange(0, 2).Draw(t, "sibling-named-like-second-entry") == 0 {
+		var others []int
+		for j := range c.Mods {
+			if c.Mods[j].Dir != a.Dir && !c.Mods[j].Remote {
+				others = append(others, j)
+			}
+		}
+		if len(others) > 0 {
+			j := others[rapid.IntRange(0, len(others)-1).Draw(t, "sibling")]
+			if c.SubDir == c.Mods[j].Dir {
+				c.SubDir = a.Dir + "-2"
+			}
+			c.Mods[j].Dir = a.Dir + "-2"
+		}
+	}
+	var dirs []string
+	var idx []int
+	for j := range c.Mods {
+		if !c.Mods[j].Remote || c.Mods[j].LocalToo {
+			dirs = append(dirs, c.Mods[j].Dir)
+			idx = append(idx, j)
+		}
+	}
+	for k, id := range refBucketIDs(dirs) {
+		c.Mods[idx[k]].BucketID = id
+	}
+	evid.R().Class("split-module-entries-sharing-a-path")
+}
+
+// includesYAML renders the includes of a split module entry (v2, indent 4).
+func includesYAML(m *Mod) string {
+	if len(m.Includes) == 0 {
+		return ""
+	}
+	var b strings.Builder
+	b.WriteString("    includes:\n")
+	for _, d := range m.Includes {
+		fmt.Fprintf(&b, "      - %s/%s\n", m.Dir, d)
+	}
+	return b.String()
 }
 
 // graph returns module -> set of directly imported modules (by opaque id).
@@ -729,6 +842,7 @@ func runWorkspace(ctx context.Context, t interface {
 				fmt.Fprintf(&y, "    name: %s\n", m.Name)
 			}
 			y.WriteString(decoyYAML(m, true))
+			y.WriteString(includesYAML(m))
 		}
 		if len(pins) > 0 {
 			y.WriteString("deps:\n")
@@ -911,6 +1025,9 @@ func TestWorkspace(t *testing.T) {
 		if rapid.Bool().Draw(t, "targetsub") && len(locals) > 0 {
 			c.SubDir = locals[rapid.IntRange(0, len(locals)-1).Draw(t, "sub")]
 		}
+		if c.Layout == "v2" {
+			splitModule(t, c)
+		}
 		genDecoys(t, c)
 		runWorkspace(ctx, t, r, c)
 	})
@@ -940,6 +1057,7 @@ func runCLI(ctx context.Context, t interface {
 			fmt.Fprintf(&y, "    name: %s\n", m.Name)
 		}
 		y.WriteString(decoyYAML(m, true))
+		y.WriteString(includesYAML(m))
 		onDisk := map[string]string{}
 		for p, txt := range m.Files {
 			onDisk[p] = txt
@@ -1048,6 +1166,7 @@ func TestCLI(t *testing.T) {
 		if rapid.Bool().Draw(t, "targetsub") {
 			c.SubDir = c.Mods[rapid.IntRange(0, len(c.Mods)-1).Draw(t, "sub")].Dir
 		}
+		splitModule(t, c)
 		genDecoys(t, c)
 		runCLI(ctx, t, r, c)
 	})
